@@ -13,6 +13,11 @@ WALL_FACTOR = float(os.environ.get("VERIF_WALL_FACTOR", "8") or 8)
 #   ematch 9.7M, pointwise 0.9M, full 5.7M, feasible 3.5M; z3 5.1 runs 0.04 .. 1 M units/s on these queries.
 STAGE_RL = {"ematch": 14_000_000, "pointwise.d0": 3_000_000, "pointwise.d2": 4_000_000, "pointwise.d4": 8_000_000,
             "pointwise.dNone": 12_000_000, "finite": 3_000_000, "full": 12_000_000, "cvc5": 30_000_000}
+# CPU-time caps (seconds, quick tier) for queries whose cost the solver's resource counter does not see; CPU time, unlike
+# wall-clock time, does not depend on how many other processes share the machine.  Largest CPU time of a discharged
+# query on the unchanged tree: 20 s (ematch), < 1 s (other stages).
+STAGE_CPU = {"ematch": 60, "pointwise.d0": 15, "pointwise.d2": 20, "pointwise.d4": 30, "pointwise.dNone": 40, "finite": 15,
+             "full": 40, "cvc5": 30, "feasible": 60, "entails": 60}
 FIXED_RL = {"feasible": 12_000_000, "entails": 12_000_000}      # path feasibility / entailment: not scaled by tier
 SLOWEST_RATE = 40_000     # units per second assumed for the wall-clock safety net
 LOG = os.environ.get("VERIF_RL_LOG")
@@ -34,9 +39,37 @@ def rl(ms, stage="full"):
     return max(1000, int(STAGE_RL.get(k, STAGE_RL["full"]) * (ms / 10000.0) * SCALE))
 
 
+def cpu_s(ms, stage="full"):
+    k = stage_key(stage)
+    base = STAGE_CPU.get(k, 40)
+    if k in FIXED_RL:
+        return int(base * SCALE)
+    return max(2, int(base * (ms / 10000.0) * SCALE))
+
+
 def wall_ms(ms, stage="full"):
-    """wall-clock safety net (never a verdict): generous enough for a 10x overloaded machine"""
-    return int(max(60_000, 1000.0 * rl(ms, stage) / SLOWEST_RATE) * (WALL_FACTOR / 8.0))
+    """wall-clock safety net (never a verdict): the CPU cap on a machine with WALL_FACTOR times more work than cores"""
+    return int(cpu_s(ms, stage) * 1000 * WALL_FACTOR)
+
+
+def children_cpu():
+    import resource
+    r = resource.getrusage(resource.RUSAGE_CHILDREN)
+    return r.ru_utime + r.ru_stime
+
+
+def stopped_by_wall_clock(cpu_before, ms, stage):
+    """after a solver subprocess reported `timeout`: True if it was stopped by the wall clock without having received its
+    CPU budget (machine too busy: no verdict), False if it used its CPU budget up (a reproducible `budget exhausted`)"""
+    return (children_cpu() - cpu_before) < cpu_s(ms, stage) * 0.9
+
+
+def limit_cpu(seconds):
+    """preexec_fn for solver subprocesses: the kernel stops the process after `seconds` of CPU time"""
+    def f():
+        import resource
+        resource.setrlimit(resource.RLIMIT_CPU, (int(seconds), int(seconds) + 2))
+    return f
 
 
 def wall_hit(stage=""):
@@ -68,11 +101,13 @@ def inproc_check(solver, ms, stage):
     solver.set("rlimit", lim)
     solver.set("timeout", wall)
     t0 = time.time()
+    c0 = time.process_time()
     try:
         r = solver.check()
     except z3.Z3Exception:
         r = z3.unknown
     dt = time.time() - t0
+    cpu = time.process_time() - c0
     used = 0
     if LOG:
         try:
@@ -90,6 +125,9 @@ def inproc_check(solver, ms, stage):
         except Exception:  # noqa
             pass
         if "resource" not in why and ("timeout" in why or "cancel" in why or dt * 1000 >= wall * 0.95):
-            wall_hit(stage)
+            # the wall-clock limit stopped the query: a verdict (`budget exhausted`) only if the query really received
+            # its CPU budget; otherwise the machine was too busy and nothing is concluded
+            if cpu < cpu_s(ms, stage) * 0.9:
+                wall_hit(stage)
     log(stage, str(r), used, dt, lim)
     return r
